@@ -56,6 +56,56 @@ def bp_split(repo):
          "        return self._make_entry(i, msgid, msgids, msgstr, msgstrs)\n\n    def _make_entry(self, i, msgid, msgids, msgstr, msgstrs):\n        encoding = self._encoding\n        if i == 0:\n"),
     ])
 
+def _ed(*pairs):
+    return lambda repo: edit(os.path.join(repo, 'lib/moparser.py'), list(pairs))
+
+# one-line edits (tie only: translate + build Props/C08Tie, no streams/falsifier): `tools/mo_tie_runs.py --tie-only`
+SMALL = {
+    'm-drop-bound-test': _ed(("        if end > len(view):\n            raise SyntaxError('truncated file')\n", "")),
+    'm-probe-minus-1': _ed(("            if view[offset + length] != b'\\0':\n                raise SyntaxError('msgid is", "            if view[offset + length - 1] != b'\\0':\n                raise SyntaxError('msgid is")),
+    'm-swap-endian': _ed(("self._endian = '<'", "self._endian = '@'"), ("self._endian = '>'", "self._endian = '<'"), ("self._endian = '@'", "self._endian = '>'")),
+    'm-maxsplit-1': _ed(("msgid.split(b'\\0', 2)", "msgid.split(b'\\0', 1)")),
+    'm-word-32': _ed(("self._read_ints(at=36)", "self._read_ints(at=32)")),
+    'm-no-order-test': _ed(("elif msgid < self._last_msgid:", "elif False:")),
+    'm-major-2': _ed(("if major_revision > 1:", "if major_revision > 2:")),
+    'm-charset-any-entry': _ed(("if encoding is None and msgid == b'':", "if encoding is None:")),
+    'm-regex': _ed(("charset=([^ \\t\\n]+)", "charset=([^ \\t]+)")),
+    'm-no-compat-test': _ed(("elif not encodings.is_ascii_compatible_encoding(encoding):", "elif False:")),
+    'm-shift-15': _ed(("1 << 16", "1 << 15")),
+    'm-stride-4': _ed(("msgid_offset + 8 * i", "msgid_offset + 4 * i")),
+    'm-ge-1-to-gt-1': _ed(("assert len(msgstrs) >= 1", "assert len(msgstrs) > 1")),
+    'm-message-text': _ed(("'unexpected null byte in msgstr'", "'unexpected null byte in msgid'")),
+    'm-flag-not-set': _ed(("        self.instance.possible_hidden_strings = possible_hidden_strings\n", "")),
+    'bp-reorder-independent': _ed(("        begin = at\n        end = at + 4 * n\n        view = self._view\n", "        view = self._view\n        end = at + 4 * n\n        begin = at\n"),
+                                  ("        [msgid_offset, msgstr_offset] = self._read_ints(at=12, n=2)\n        self._last_msgid = None\n", "        self._last_msgid = None\n        [msgid_offset, msgstr_offset] = self._read_ints(at=12, n=2)\n")),
+    'bp-flip-comparison': _ed(("if end > len(view):", "if len(view) < end:")),
+    'bp-comments-docstrings': _ed(("    def _parse(self):\n", "    def _parse(self):\n        \'\'\'read the header, then the entries\'\'\'\n        # nothing else\n\n")),
+    'bp-inline-temp': _ed(("        begin = at\n        end = at + 4 * n\n", "        end = at + 4 * n\n"), ("view[begin:end]", "view[at:end]")),
+    'bp-not-eq-form': _ed(("if len(msgids) > 2:", "if not len(msgids) <= 2:")),
+}
+
+def tie_only(name):
+    scratch = tempfile.mkdtemp(prefix='motr-scratch.')
+    repo = os.path.join(scratch, 'repo')
+    res = {'case': name}
+    try:
+        subprocess.run(['git', 'clone', '-q', '/repo', repo], check=True)
+        SMALL[name](repo)
+        rc, out = sh(['/venv/bin/python', '-m', 'pytest', '-q', '-p', 'no:cacheprovider', '-x', 'tests/test_moparser.py'], cwd=repo)
+        res['moparser_tests'] = out.strip().splitlines()[-1] if out.strip() else ''
+        rc, out = sh(['/venv/bin/python', os.path.join(HERE, 'tools/translate/mo2lean.py'), repo])
+        res['translator'] = 'untranslatable: ' + out.strip().split('untranslatable: ')[-1] if rc == 3 else out.strip()
+        t0 = time.time()
+        rc, out = sh(['lake', 'build', 'I18n.Props.C08Tie'], cwd=os.path.join(HERE, 'lean'))
+        res['tie'] = 'holds' if rc == 0 else 'fails'
+        res['build_s'] = round(time.time() - t0, 1)
+        if rc != 0:
+            errs = re.findall(r'^error: (.*)$', out, re.M)
+            res['first_errors'] = [e[:160] for e in errs[:3]]
+    finally:
+        shutil.rmtree(scratch, ignore_errors=True)
+    return res
+
 CASES = {'bp-rename': bp_rename, 'bp-split': bp_split, 'seeded/C08-a': c08a_rebased}
 
 def run_case(name):
@@ -99,6 +149,18 @@ def run_case(name):
     return res
 
 def main():
+    if sys.argv[1:2] == ['--tie-only']:
+        out = []
+        try:
+            for n in (sys.argv[2:] or list(SMALL)):
+                r = tie_only(n)
+                out.append(r)
+                print(json.dumps(r), flush=True)
+        finally:
+            sh(['/venv/bin/python', os.path.join(HERE, 'tools/translate/mo2lean.py'), '/repo'])
+            sh(['lake', 'build', 'I18n.Props.C08Tie', 'driver'], cwd=os.path.join(HERE, 'lean'))
+        json.dump(out, open(os.path.join(HERE, 'DESIGN-notes', 'mo-tie-small-edits.json'), 'w'), indent=1)
+        return
     names = sys.argv[1:] or ['seeded/C08-a', 'seeded/C08-b', 'seeded/C08-c', 'seeded/C08-d', 'seeded/C09-a', 'seeded/C09-b', 'seeded/C09-c', 'seeded/C09-d', 'bp-rename', 'bp-split']
     out = []
     try:
